@@ -47,6 +47,9 @@ pub enum Outcome {
     Panic(String),
     /// the input is not lexable (never produced by the generators; counted)
     NotLexable,
+    /// a `..` / `>.` operand is not syntactically a member access: outside the property's domain
+    /// (whatever happens - invalid output, a panic of `parse_quote!` on it - is the user's doing)
+    OutOfDomain,
 }
 
 fn panic_text(p: Box<dyn std::any::Any + Send>) -> String {
@@ -84,23 +87,25 @@ pub fn expand(text: &str, ci: usize) -> (Outcome, bool) {
         Ok(t) => t,
         Err(_) => return (Outcome::NotLexable, false),
     };
+    let members_ok_cell = std::cell::Cell::new(true);
     let r = catch_unwind(AssertUnwindSafe(|| match syn::parse2::<JoinInputDefault>(ts) {
         Err(e) => (Outcome::SynErr(e.to_string()), false),
         Ok(parsed) => {
             let members_ok = dots_are_members(&parsed);
+            members_ok_cell.set(members_ok);
             let out = generate_join(&parsed, cfg(ci));
+            if !members_ok {
+                return (Outcome::OutOfDomain, true);
+            }
             match syn::parse2::<syn::Expr>(out.clone()) {
                 Ok(_) => (Outcome::Valid, true),
-                Err(e) => {
-                    if members_ok {
-                        (Outcome::InvalidOutput(format!("{} in `{}`", e, out.to_string().chars().take(300).collect::<String>())), true)
-                    } else {
-                        (Outcome::Valid, true)
-                    }
-                }
+                Err(e) => (Outcome::InvalidOutput(format!("{} in `{}`", e, out.to_string().chars().take(300).collect::<String>())), true),
             }
         }
     }));
+    if !members_ok_cell.get() {
+        return (Outcome::OutOfDomain, true);
+    }
     match r {
         Ok(o) => o,
         Err(p) => {
@@ -318,6 +323,21 @@ fn fnv(s: &str) -> u64 {
     s.bytes().fold(0xcbf29ce484222325u64, |a, b| (a ^ b as u64).wrapping_mul(0x100000001b3))
 }
 
+pub static KNOWN_LET_KEYWORD: AtomicU64 = AtomicU64::new(0);
+thread_local! {
+    /// is the keyword-let finding listed as open?
+    static KNOWN: bool = evid::Known::load().open("C15", "let-name-is-a-keyword").is_some();
+}
+
+/// known finding: a `let` name that is a keyword
+fn let_name_is_keyword(text: &str) -> bool {
+    let Ok(ts) = proc_macro2::TokenStream::from_str(text) else { return false };
+    match catch_unwind(AssertUnwindSafe(|| syn::parse2::<JoinInputDefault>(ts))) {
+        Ok(Ok(p)) => p.branches.iter().any(|b| b.id().map(|pat| syn::parse_str::<syn::Ident>(&pat.ident.to_string()).is_err()).unwrap_or(false)),
+        _ => false,
+    }
+}
+
 /// verdict for one input: Err(detail) is a violation
 fn judge(text: &str, ci: usize, must_reject: bool, tally: &RefCell<Tally>, stop: &RefCell<bool>) -> Result<(), String> {
     let (o, reached) = expand(text, ci);
@@ -331,9 +351,10 @@ fn judge(text: &str, ci: usize, must_reject: bool, tally: &RefCell<Tally>, stop:
             Outcome::ConfigRejected(_) => "outcome config_rejected",
             Outcome::Panic(_) => "outcome panic",
             Outcome::NotLexable => "outcome not_lexable",
+            Outcome::OutOfDomain => "outcome out_of_domain (dot operand is not a member access)",
         };
         *t.classes.entry(cls.to_string()).or_default() += 1;
-        if (reached || must_reject) && t.seen.insert(fnv(text) ^ ci as u64) {
+        if (reached || must_reject) && o != Outcome::OutOfDomain && t.seen.insert(fnv(text) ^ ci as u64) {
             t.nontrivial += 1;
             if t.samples.len() < 8 && t.nontrivial % 1009 == 1 {
                 t.samples.push(json!({"input": text, "config": ci, "outcome": cls}));
@@ -342,7 +363,13 @@ fn judge(text: &str, ci: usize, must_reject: bool, tally: &RefCell<Tally>, stop:
     }
     match o {
         Outcome::Panic(m) => Err(format!("internal panic: {}", m)),
-        Outcome::InvalidOutput(m) => Err(format!("accepted input expands to invalid code: {}", m)),
+        Outcome::InvalidOutput(m) => {
+            if let_name_is_keyword(text) && KNOWN.with(|k| *k) {
+                KNOWN_LET_KEYWORD.fetch_add(1, Ordering::Relaxed);
+                return Ok(());
+            }
+            Err(format!("accepted input expands to invalid code: {}", m))
+        }
         Outcome::Valid | Outcome::ConfigRejected(_) if must_reject => Err("structurally invalid input was accepted silently".to_string()),
         _ => Ok(()),
     }
@@ -447,6 +474,14 @@ pub fn run(tier: &str, seed: u64) -> i32 {
         println!("KNOWN-FINDING: property=C15 {} [{} generated fault inputs of this class excluded by construction]", e["what"].as_str().unwrap_or(""), excl);
         ev.known_findings.push("let-pattern-before-top-level-lazy-boolean".into());
         ev.excluded_known = excl;
+    }
+    let nk = KNOWN_LET_KEYWORD.load(Ordering::Relaxed);
+    if nk > 0 {
+        if let Some(e) = known.open("C15", "let-name-is-a-keyword") {
+            println!("KNOWN-FINDING: property=C15 {} [{} generated inputs of this class]", e["what"].as_str().unwrap_or(""), nk);
+            ev.known_findings.push("let-name-is-a-keyword".into());
+            ev.excluded_known += nk;
+        }
     }
     let mut code = 0;
     if let Some((text, ci, d, kind)) = violation {
